@@ -238,7 +238,56 @@ def _find_worker(d, chunk, extra):
     return out
 
 
+# ---------------------------------------------------------------- one use site, several stacks in a row
+STREAM_WORDS = {"?match": ['"b"', '"("', '"a*c"', '""'], "!match": ['"b"', '"("', '"^a"', '"["'], "?find": ['"b"', '"ab"', '""', '"x"'], "?starts": ['"a"', '"ab"', '""', '"b"'],
+                "?ends": ['"c"', '"bc"', '""', '"a"'], "add": ['"x"', '""', '"yz"', "1"], "?eq": ['"abc"', '"ab"', "1", '""'], "=~": ['"b"', '"("', '"c$"', '"*"']}
+
+
+def stream_cases(n):
+    for w, ys in STREAM_WORDS.items():
+        for x in ('"abc"', '""'):
+            for seq in itertools.product(ys, repeat=n):
+                yield w, x, seq
+
+
+def _stream_worker(d, chunk, extra):
+    """`X (Y1, Y2, Y3) W` must yield what `X Y1 W`, `X Y2 W`, `X Y3 W` yield one after the other, diagnostics included:
+    the word sees each stack on its own (no compiled pattern, buffer or flag carried over from the previous stack)."""
+    out = {"n": 0, "bad": []}
+    singles = {}
+    need = sorted({(w, x, y) for w, x, seq in chunk for y in seq})
+
+    def q1(w, x, y):
+        return "(%s =~ %s)" % (x, y) if w == "=~" else "%s %s %s" % (x, y, w)
+    rs = d.batch([drv.run_cmd(q1(w, x, y), lim=5) for w, x, y in need])
+    for k, r in zip(need, rs):
+        singles[k] = r
+    qs = []
+    for w, x, seq in chunk:
+        alt = "(" + ", ".join(seq) + ")"
+        qs.append("%s %s (|A B| (A =~ B))" % (x, alt) if w == "=~" else "%s %s %s" % (x, alt, w))
+    rs = d.batch([drv.run_cmd(q, lim=20) for q in qs])
+    for (w, x, seq), q, r in zip(chunk, qs, rs):
+        out["n"] += 1
+        exp_n = [len(singles[(w, x, y)].results()) for y in seq]
+        exp_diag = sum(len(singles[(w, x, y)].stderr.splitlines()) for y in seq)
+        got_n = len(r.results())
+        if r.crash or got_n != sum(exp_n) or len(r.stderr.splitlines()) != exp_diag:
+            out["bad"].append(("stream:%s|%s|%s" % (w, x, ",".join(seq)), "`%s` yields %d results and %d diagnostic lines; the three stacks taken alone yield %r results and %d diagnostic lines" % (
+                q, got_n, len(r.stderr.splitlines()), exp_n, exp_diag), {"stream": [w, x, list(seq)], "kind": "stream"}))
+    out["bad"] = out["bad"][:10]
+    return out
+
+
 def replay(case):
+    if "stream" in case:
+        ctx = common.Ctx("C11", "quick")
+        d = drv.Drv(ctx.bin("zwdrv"), "core")
+        try:
+            w, x, seq = case["stream"]
+            return bool(_stream_worker(d, [(w, x, tuple(seq))], None)["bad"])
+        finally:
+            d.close()
     if "find" in case:
         ctx = common.Ctx("C11", "quick")
         d = drv.Drv(ctx.bin("zwdrv"), "core")
@@ -285,6 +334,11 @@ def main(ctx):
     fb = (6, 4) if ctx.tier == "thorough" else (5, 3)
     for r in common.pmap(ctx, _find_worker, common.chunks(find_cases(*fb), 60), bins["zwdrv"], "core", timeout=60):
         ctx.count("search_word_cases", r["n"])
+        ctx.count("programs", r["n"])
+        for key, what, case in r["bad"]:
+            ctx.violation(key, what, case)
+    for r in common.pmap(ctx, _stream_worker, common.chunks(stream_cases(4 if ctx.tier == "thorough" else 3), 64), bins["zwdrv"], "core", timeout=60):
+        ctx.count("stream_cases", r["n"])
         ctx.count("programs", r["n"])
         for key, what, case in r["bad"]:
             ctx.violation(key, what, case)
